@@ -252,7 +252,7 @@ fn generate(rng: &mut Rng) -> ConnScenario {
                 1 => StatusRes::Minimal,
                 // answers around and beyond 16 KiB (the frame length prefix grows to three bytes at 16384)
                 2 => StatusRes::Big { favicon_len: *rng.pick(&[3_000usize, 16_100, 16_300, 20_000, 30_000]), sample: *rng.pick(&[0usize, 1, 12]) },
-                _ => StatusRes::Full { name: "Sim 1.21".into(), online: rng.below(100) as u32, max: 100, description: "hello \"world\"".into() },
+                _ => StatusRes::Full { name: "Sim 1.21".into(), online: rng.below(100) as u32, max: 100, description: (*rng.pick(&["hello \"world\"", "§aHello – wörld ❤", "日本語のサーバー"])).into() },
             },
         ),
         discovery: Script::always(Some(0), DiscRes::Targets(if has_target { vec![gen_target(rng, 0)] } else { vec![] })),
@@ -260,9 +260,11 @@ fn generate(rng: &mut Rng) -> ConnScenario {
         ..Default::default()
     };
     // the legal script for this intent
+    // (some host names make the handshake frame 254 / 382 / 510 bytes long: its length prefix then starts with 0xFE, 0xFE 0x02 ...)
+    let host: String = if rng.chance(1, 10) { "h".repeat(*rng.pick(&[246usize, 374, 502, 118, 119])) } else { "mc.example.org".into() };
     let mut legal: Vec<Step> = vec![Step::Frame {
         id: 0,
-        body: Body::Handshake { protocol: 769, host: "mc.example.org".into(), port: 25565, next: intent },
+        body: Body::Handshake { protocol: 769, host, port: 25565, next: intent },
     }];
     if intent == 1 {
         legal.push(Step::Frame { id: 0, body: Body::Empty });
